@@ -243,6 +243,26 @@ U("side", "side_replace_char_patterns", "SIDE", ["C04"], "quick", "syntactic: ev
 U("side", "data_stdlib_scan", "SIDE", ["C04", "C05"], "quick",
   "data: every line of data/stdlib_complete.txt is non-empty printable backslash-free ASCII with a non-empty module part (backs module_contract)")
 
+# ---------------------------------------------------------------------------------------------------
+# PURITY — C07 (reduced scope)
+PUR = "two runs with equal configuration and entropy return equal bytes; no OS entropy / clock / syscall / FFI reachable (Kani fails on each)"
+H("purity_seeded_generate", "purity.rs", "PURITY", ["C07", "C09"], "quick",
+  "generate() twice with the same seed (every u64, seed_from_u64 real) on every protocol, T=1, deterministic callee contracts; " + PUR,
+  stubs=ENV_STUBS + HEAD_CONTRACTS + RNG_STUBS + ["seed_same_stream: ChaCha8Rng::from_seed returns the same word stream for both runs"],
+  funcs=["Generator::generate", "Generator::generate_internal"], cost=8)
+H("purity_arbitrary_generate", "purity.rs", "PURITY", ["C07", "C09"], "quick",
+  "generate_from_arbitrary() twice with the same bytes (0..2) on every protocol, T=1; " + PUR,
+  stubs=ENV_STUBS + HEAD_CONTRACTS, funcs=["Generator::generate_from_arbitrary", "Generator::generate_internal"], cost=6)
+for n, what in [("binint1", "integer emitter (protocol 1, BININT1 choice)"), ("binfloat", "BINFLOAT"), ("binbytes", "BINBYTES, 1-byte payload"),
+                ("global", "GLOBAL (name contract fixed)"), ("ext2", "EXT2"), ("long_binput", "LONG_BINPUT, memo size <= 200"), ("none", "NONE")]:
+    H("purity_emit_" + n, "purity.rs", "PURITY", ["C07"], "quick",
+      "emit_and_process twice from equal state and equal fuzzer bytes: %s; %s" % (what, PUR), stubs=EMIT_STUBS,
+      funcs=["Generator::emit_and_process"], cost=2)
+H("purity_unseeded_mustfail", "purity.rs", "PURITY(twin)", ["C07"], "quick",
+  "must-fail twin: generate() WITHOUT a seed must be rejected by Kani (from_os_rng -> getrandom -> dlsym); if it verifies, the impurity detector is broken",
+  stubs=ENV_STUBS + HEAD_CONTRACTS, funcs=["Generator::generate"], cost=1)
+UNITS[-1]["must_fail"] = "foreign"
+
 
 def units_for(prop, tier):
     out = []
